@@ -69,7 +69,11 @@ RULE += (
     "greedy/MinFill/MinNeighbors/MinWeight/WeightedMinFill/explicit elimination orders, joint=False (VE and BP), "
     "map_query with and without variables, max_marginal, CausalInference with ve/bp and do/evidence, samplers "
     "(forward/rejection/likelihood weighted, Gibbs chain), use_cache on/off, K2/BDeu/BDs/BIC/AIC.  "
-    "BeliefPropagationWithMessagePassing (factor graphs) is not an engine of this property's quantifier.  "
+    "BeliefPropagationWithMessagePassing: bpmp stream (tree-shaped factor graphs from polytrees with factors over up to "
+    "4 variables, equal and unequal cardinalities, every marginal with/without evidence and virtual evidence, under "
+    "renamings, parent orders, axis orders and scales of every factor, insertion orders, state listing orders, hash "
+    "seeds); the engine does not support loopy factor graphs, takes evidence and returns answers by state POSITION "
+    "(no state names), and multiplies with np.matmul (numpy backend only) - none of these is generated.  "
     "K rejected calls: a variable both asked and observed, a LATER evidence item with an unknown state, virtual "
     "evidence of the wrong cardinality, an unknown variable - the extracted model decides (q_valid), pgmpy must "
     "raise and leave no trace.  L orders: node/edge/CPD/parent insertion orders, elimination orders, hash seeds, "
@@ -414,6 +418,12 @@ def cases(tier, seed):
                         "rep": gen_rep(rng, net, states=rng.choice(["str", "default", "permint"])),
                         "qseed": rng.randint(0, 10**9),
                         "backend": "torch64" if (r % 2 and call not in ("sample", "simulate", "ci_query")) else "numpy"})
+    # ---- BeliefPropagationWithMessagePassing on tree-shaped factor graphs (factors over up to 4 variables)
+    for k in range(12 if tier == "quick" else 120):
+        mode = ["equal", "unequal"][k % 2]
+        net = gen_polytree(rng, rng.randint(4, 7), mode)
+        out.append({"kind": "bpmp", "net": net, "cards_mode": mode, "nreps": 3, "pseed": rng.randint(0, 10**9),
+                    "hashseed": seeds[k % len(seeds)]})
     # ---- factor operations across backends / axis orders
     nf = 30 if tier == "quick" else 300
     for k in range(nf):
@@ -884,6 +894,8 @@ def run_case(case, drv):
             return run_session(case, drv)
         if k == "resindep":
             return run_resindep(case, drv)
+        if k == "bpmp":
+            return run_bpmp(case, drv)
     finally:
         if not backend_clean():
             from pgmpy import config
@@ -2515,3 +2527,133 @@ def run_resindep(case, drv):
     if not backend_clean():
         return bad("backend-not-restored", {}, key=key, tags=tags)
     return ok(True, key, tags)
+
+
+# ------------------------------------------------------------------- BeliefPropagationWithMessagePassing (factor graphs)
+def gen_polytree(rng, n, cards_mode):
+    """a DAG whose skeleton is a tree (so that the factor graph of its CPDs has no loop), with nodes of up to
+    three parents: factors over up to four variables"""
+    parents = {0: []}
+    for i in range(1, n):
+        j = rng.randrange(i)
+        parents[i] = []
+        if len(parents[j]) < 3 and rng.random() < 0.65:
+            parents[j].append(i)          # the new node becomes a parent of an existing one
+        else:
+            parents[i].append(j)
+    if cards_mode == "equal":
+        c = rng.choice([2, 2, 3])
+        cards = [c] * n
+    else:
+        cards = [rng.choice([2, 3]) for _ in range(n)]
+        if len(set(cards)) == 1:
+            cards[rng.randrange(n)] = 5 - cards[0]
+    cpt = []
+    for i in range(n):
+        ps = parents[i]
+        rng.shuffle(ps)
+        ncol = 1
+        for q in ps:
+            ncol *= cards[q]
+        cols = [common.rand_column(rng, cards[i], zeros=False) for _ in range(ncol)]
+        cpt.append({"parents": ps, "flat": [_fr(cols[c_][s]) for s in range(cards[i]) for c_ in range(ncol)]})
+    edges = [[q, i] for i in range(n) for q in parents[i]]
+    rng.shuffle(edges)
+    return {"n": n, "cards": cards, "edges": edges, "cpt": cpt}
+
+
+def run_bpmp(case, drv):
+    """the same distribution as a factor graph in several representations (variable names, parent orders, axis
+    order of every factor, scale of every potential, insertion orders of nodes / factors / edges, state listing
+    order): every marginal posterior, with and without evidence / virtual evidence, must equal the extracted
+    model's posterior; the factor graph and the arguments are untouched; a second identical question and a
+    question after other questions get the same answer."""
+    import numpy as np
+    from pgmpy.models import FactorGraph
+    from pgmpy.factors.discrete import DiscreteFactor, TabularCPD
+    from pgmpy.inference import BeliefPropagationWithMessagePassing
+
+    net = case["net"]
+    n = net["n"]
+    rng = random.Random(case["pseed"])
+    maxscope = max(len(c["parents"]) + 1 for c in net["cpt"])
+    tags = ["bpmp", "cards=" + case["cards_mode"], "maxscope=%d" % maxscope, "n=%d" % n]
+    key = common.canon_key(["bpmp", net, case["pseed"]])
+    # questions: every variable, without evidence, with evidence, with virtual evidence
+    questions = [([], None)]
+    for _ in range(2):
+        _, ev = gen_question(rng, net)
+        virt = gen_virt(rng, net, {v for v, _ in ev}) if rng.random() < 0.6 else None
+        if ev or virt:
+            questions.append((ev, virt))
+    refs = {}
+    for qi, (ev, virt) in enumerate(questions):
+        vf = [[[v], [Fraction(a, c) for a, c in e]] for v, e in (virt or [])]
+        for v in range(n):
+            if v in [x for x, _ in ev]:
+                continue
+            rest = [u for u in range(n) if u != v and u not in [x for x, _ in ev]]
+            tab = drv.call("c16_post", [net["cards"], model_factors(net) + vf, [list(x) for x in ev], rest, [v]])
+            refs[(qi, v)] = [common.frac(x) for x in tab]
+    for r in range(case["nreps"]):
+        rep = gen_rep(rng, net, states="default")
+        rep["state_order"] = [rng.sample(range(c), c) for c in net["cards"]]   # states are POSITIONS for this engine
+        rep["labels"] = [list(range(c)) for c in net["cards"]]
+        b = build(net, rep, check=False)
+        fg = FactorGraph()
+        fg.add_nodes_from([b.names[i] for i in rep["node_order"]])
+        edges = []
+        for cpd in b.model.cpds:
+            phi = cpd.to_factor()
+            axes = list(range(len(phi.variables)))
+            rng.shuffle(axes)                                   # another axis order of the same factor
+            vals = np.transpose(np_values(phi.values), axes) * (2.0 ** rng.randint(-6, 6))
+            phi2 = DiscreteFactor([phi.variables[a] for a in axes], [int(phi.cardinality[a]) for a in axes], vals)
+            fg.add_factors(phi2)
+            edges += [(v, phi2) for v in phi2.variables]
+        rng.shuffle(edges)
+        fg.add_edges_from(edges)
+        fg.check_model()
+        w = Watch(graph=fg)
+        eng = BeliefPropagationWithMessagePassing(fg)
+        order = list(range(len(questions)))
+        rng.shuffle(order)
+        for qi in order + order[:1]:                            # the first question is asked again at the end
+            ev, virt = questions[qi]
+            evd = {b.names[v]: b.order[v].index(s) for v, s in ev}
+            vc = None
+            if virt:
+                vc = []
+                for v, e in virt:
+                    col = [0.0] * net["cards"][v]
+                    for c_ in range(net["cards"][v]):
+                        col[b.order[v].index(c_)] = float(Fraction(e[c_][0], e[c_][1]))
+                    vc.append(TabularCPD(b.names[v], net["cards"][v], [[x] for x in col]))
+            qvars = [v for v in range(n) if v not in [x for x, _ in ev]]
+            rng.shuffle(qvars)
+            aw = Watch(evidence=evd, virtual_evidence=vc)
+            try:
+                res = eng.query([b.names[v] for v in qvars], evidence=(evd or None), virtual_evidence=vc)
+            except Exception as e:
+                import traceback
+                return bad("impl-exception", {"engine": "BeliefPropagationWithMessagePassing", "rep": r, "ev": ev, "virt": virt,
+                                              "exc": repr(e)[:300], "tb": traceback.format_exc()[-600:]}, key=key, tags=tags)
+            for v in qvars:
+                vals = np_values(res[b.names[v]].values)
+                for p_ in range(net["cards"][v]):
+                    want = refs[(qi, v)][b.order[v][p_]]
+                    if not rel_close(vals[p_], want, TOL):
+                        par = {i: [net["cpt"][i]["parents"][k] for k in rep["par_order"][i]] for i in range(n)
+                               if len(net["cpt"][i]["parents"]) > 1}
+                        return bad("impl!=model", {"engine": "BeliefPropagationWithMessagePassing", "rep": r, "var": v,
+                                                   "state": b.order[v][p_], "got": float(vals[p_]), "want": float(want),
+                                                   "ev": ev, "virt": virt, "parent_orders": par,
+                                                   "factor_scopes": [[b.idx[x] for x in f.variables] for f in fg.factors]},
+                                   key=key, tags=tags)
+            if aw.diff():
+                return bad("mutated-argument", {"engine": "BeliefPropagationWithMessagePassing", "changed": aw.diff()},
+                           key=key, tags=tags)
+        if w.diff():
+            return bad("mutated-argument", {"engine": "BeliefPropagationWithMessagePassing", "changed": ["factor graph"]},
+                       key=key, tags=tags)
+    return ok(maxscope >= 3, key, tags)
